@@ -40,17 +40,25 @@ def _int(tok):
     raise Unclear("lenient-integer-spelling")     # '1_0', non-ASCII digits ...
 
 
-def _check_ws(text):
-    for ch in text:
+def _check_ws(text, comment=None):
+    # a comment line runs to the next newline whatever it holds (form feeds, NEL, U+2028 ... are not line ends of a
+    # text file); elsewhere such characters make the token structure a matter of taste
+    body = text
+    if comment is not None:
+        body = "\n".join(raw for raw in text.split("\n") if not comment(raw))
+    for ch in body:
         if ch.isspace() and ch not in PLAIN_WS:
             raise Unclear("exotic-whitespace")
     if "\r" in text.replace("\r\n", ""):
         raise Unclear("bare-carriage-return")      # line structure depends on the stream
 
 
+_COMMENT = {"_kthlist": lambda raw: raw[:1] == "c", "_dimacs": lambda raw: raw.lstrip(" \t")[:1] == "c"}
+
+
 def _verdict(fn, text, gtype):
     try:
-        _check_ws(text)
+        _check_ws(text, _COMMENT.get(fn.__name__))
         return ("graph", fn(text, gtype))
     except Reject as e:
         return ("reject", str(e))
